@@ -163,7 +163,8 @@ func (c *Ctx) externalEnvelope() {
 	nRight, okRight := 0, true
 	sum := ""
 	destOK, srcOK := false, false
-	allInstrs(f, func(_ *ssa.BasicBlock, in ssa.Instruction) {
+	// (the envelope may be assembled in the function or in an unexported helper it calls)
+	c.allInstrsDeep(f, func(_ *ssa.BasicBlock, in ssa.Instruction) {
 		st, ok := in.(*ssa.Store)
 		if !ok {
 			return
